@@ -42,6 +42,12 @@ Proof. reflexivity. Qed.
 Lemma release_sticky : ew_release_sticky = true.
 Proof. reflexivity. Qed.
 
+(* the producers' hand-over read from writer.go is one plain blocking send of the converted
+   message: no select, no go statement, a single send (a change of that shape breaks this proof
+   and, with it, everything below that speaks about publications) *)
+Lemma pub_sync_true : pub_sync = true.
+Proof. reflexivity. Qed.
+
 (* ---------- the invariant ---------- *)
 Definition ok_batch (b : list msg) : Prop := (1 <= length b <= 100)%nat.
 
@@ -107,7 +113,7 @@ Ltac crush :=
 Lemma inv_pub p e s : Inv s -> Inv (step_pub p e s).
 Proof.
   intros [Hc Hk Hb Hi Hcap Hcl Hwg Hbl Hd Hwp Hpop Hnw Hwe Hwk Hwt Hr Hp Hrl Hnl].
-  destruct s as [ch cl bf wk dn rl g b w c dl ac pn]. unfold step_pub.
+  destruct s as [ch cl bf wk dn rl g b w c dl ac pn]. unfold step_pub. rewrite pub_sync_true. cbv iota.
   destruct (key_of e) as [k|] eqn:Ek; [|constructor; assumption].
   destruct cl.
   - constructor; pj; try assumption. reflexivity.
@@ -214,7 +220,7 @@ Lemma accepted_spec s :
 Proof.
   destruct s as [ch cl bf wk dn rl g b w c dl ac pn]. unfold publish_enabled.
   repeat split; cbn [step].
-  - intros p e. unfold step_pub. cbn [closed chan accepted].
+  - intros p e. unfold step_pub. rewrite pub_sync_true. cbn [closed chan accepted].
     destruct (key_of e); [|reflexivity]. destruct cl; cbn [negb andb]; [reflexivity|].
     destruct (Nlen ch <? ew_chan_cap); reflexivity.
   - unfold step_B. destruct b; try reflexivity. destruct ch; [destruct cl|]; reflexivity.
@@ -532,7 +538,8 @@ Lemma cp_not_back l s : cp s <> CNot -> cp (step l s) <> CNot.
 Proof.
   destruct s as [ch cl bf wk dn rl g b w c dl ac pn]. cbn [cp]. intro H.
   destruct l as [p e| | |]; cbn [step].
-  - unfold step_pub. destruct (key_of e); [destruct cl; [|destruct (Nlen ch <? ew_chan_cap)]|]; exact H.
+  - unfold step_pub. rewrite pub_sync_true.
+    destruct (key_of e); [destruct cl; [|destruct (Nlen ch <? ew_chan_cap)]|]; exact H.
   - unfold step_B. destruct b; try exact H. destruct ch; [destruct cl|]; exact H.
   - unfold step_W. destruct w as [|d|d|d bt|d| | |]; try exact H.
     + destruct dn; exact H.
@@ -723,6 +730,120 @@ Proof.
   destruct (b_can s) eqn:B; [split; [auto|exact B]|].
   destruct (w_can s) eqn:W; [split; [auto|exact W]|].
   exfalso. apply Q. auto.
+Qed.
+
+(* ---------- the producer side: a full channel makes the producer wait ---------- *)
+Lemma publish_blocks_when_full s p e :
+  closed s = false -> publish_enabled s = false -> step (LPub p e) s = s.
+Proof.
+  destruct s as [ch cl bf wk dn rl g b w c dl ac pn]. unfold publish_enabled. cbn [closed chan step].
+  intros -> H. cbn [negb andb] in H. unfold step_pub. rewrite pub_sync_true, H.
+  destruct (key_of e); reflexivity.
+Qed.
+
+Lemma publish_is_blocking_send :
+  ew_pub_single_send = true /\ ew_pub_plain_send = true /\ ew_pub_no_select = true /\
+  ew_pub_no_go = true /\ ew_pub_convert_first = true /\
+  (forall s p e, closed s = false -> publish_enabled s = false -> step (LPub p e) s = s).
+Proof. repeat (split; [reflexivity|]). exact publish_blocks_when_full. Qed.
+
+Lemma pub_step_counts p e s :
+  (length (chan s) <= N.to_nat ew_chan_cap)%nat ->
+  let s' := step (LPub p e) s in
+  (length (accepted s') + length (chan s) = length (accepted s) + length (chan s'))%nat /\
+  (length (chan s') <= N.to_nat ew_chan_cap)%nat /\ delivered s' = delivered s.
+Proof.
+  destruct s as [ch cl bf wk dn rl g b w c dl ac pn]. cbn [step chan accepted delivered]. intro Hcap.
+  unfold step_pub. rewrite pub_sync_true.
+  destruct (key_of e); [|cbn; auto]. destruct cl; [cbn; auto|].
+  destruct (Nlen ch <? ew_chan_cap) eqn:El; [|cbn; auto].
+  apply N.ltb_lt in El. unfold Nlen in El. cbn [chan accepted delivered].
+  rewrite !app_length. cbn [length]. repeat split; lia.
+Qed.
+
+Lemma pubs_only_counts pubs : forall s,
+  (length (chan s) <= N.to_nat ew_chan_cap)%nat ->
+  let s' := run (map pub_label pubs) s in
+  (length (accepted s') + length (chan s) = length (accepted s) + length (chan s'))%nat /\
+  (length (chan s') <= N.to_nat ew_chan_cap)%nat /\ delivered s' = delivered s.
+Proof.
+  induction pubs as [|pe r IH]; intros s Hcap; [cbn; auto|].
+  change (run (map pub_label (pe :: r)) s)
+    with (run (map pub_label r) (step (LPub (fst pe) (snd pe)) s)).
+  destruct (pub_step_counts (fst pe) (snd pe) s Hcap) as (A & B & C).
+  destruct (IH _ B) as (A' & B' & C'). cbn zeta in *.
+  repeat split; [lia|exact B'|congruence].
+Qed.
+
+(* whatever the producers do, while the batching loop does not move no more publications are
+   accepted (WriteEvent returns) than the channel has room for *)
+Lemma full_channel_blocks_producers sched pubs :
+  let s := run sched init in
+  let s' := run (map pub_label pubs) s in
+  (length (accepted s') + length (chan s) <= length (accepted s) + N.to_nat ew_chan_cap)%nat /\
+  delivered s' = delivered s.
+Proof.
+  cbn zeta. destruct (pubs_only_counts pubs _ (i_cap _ (inv_reach sched))) as (A & B & C).
+  split; [lia|exact C].
+Qed.
+
+(* the stalled phase of the forced OFull schedules: the batching loop takes one message and then
+   stands still, so at most capacity + 1 publications return *)
+Definition idle1 (b : bpc) : nat := match b with BIdle => 1 | _ => 0 end.
+Definition took (p : N) (e : event) (s : st) : list label :=
+  match bp (step (LPub p e) s) with
+  | BIdle => match chan (step (LPub p e) s) with _ :: _ => [LB] | [] => [] end
+  | _ => []
+  end.
+
+Lemma stalled_iter p e s :
+  (length (chan s) <= N.to_nat ew_chan_cap)%nat ->
+  supported e && negb (closed s) && negb (publish_enabled s) = false ->
+  let s2 := run (took p e s) (step (LPub p e) s) in
+  (length (chan s2) <= N.to_nat ew_chan_cap)%nat /\
+  ((if supported e && negb (closed s) then 1 else 0) + length (chan s) + idle1 (bp s2)
+   <= length (chan s2) + idle1 (bp s))%nat.
+Proof.
+  destruct s as [ch cl bf wk dn rl g b w c dl ac pn]. unfold took, supported, publish_enabled.
+  cbn [step closed chan bp]. unfold step_pub. rewrite pub_sync_true. intros Hcap Hblk.
+  destruct (key_of e) as [k|].
+  - destruct cl; cbn [negb andb] in *.
+    + cbn [bp chan]. destruct b; cbn [run fold_left bp chan idle1]; try (split; lia).
+      destruct ch as [|m r]; cbn [run fold_left step step_B bp chan idle1 length] in *; split; lia.
+    + apply negb_false_iff in Hblk. rewrite Hblk. cbn [bp chan].
+      apply N.ltb_lt in Hblk. unfold Nlen in Hblk.
+      destruct b; cbn [run fold_left bp chan idle1]; rewrite ?app_length; cbn [length]; try (split; lia).
+      destruct ch as [|m r]; cbn [app run fold_left step step_B bp chan idle1 length] in *;
+        rewrite ?app_length; cbn [length]; split; lia.
+  - cbn [andb bp chan]. destruct b; cbn [run fold_left bp chan idle1]; try (split; lia).
+    destruct ch as [|m r]; cbn [run fold_left step step_B bp chan idle1 length] in *; split; lia.
+Qed.
+
+Lemma stalled_bound l : forall s,
+  (length (chan s) <= N.to_nat ew_chan_cap)%nat ->
+  (N.to_nat (stalled_returns l s) + length (chan s) <= N.to_nat ew_chan_cap + idle1 (bp s))%nat.
+Proof.
+  unfold stalled_returns.
+  induction l as [|pe r IH]; intros s Hcap; [cbn [stalled snd]; change (N.to_nat 0) with 0%nat; lia|].
+  cbn [stalled].
+  destruct (supported (snd pe) && negb (closed s) && negb (publish_enabled s)) eqn:Eblk;
+    [cbn [snd]; change (N.to_nat 0) with 0%nat; lia|].
+  destruct (stalled_iter (fst pe) (snd pe) s Hcap Eblk) as [Hc2 Hit].
+  unfold took in Hc2, Hit. unfold pub_label.
+  specialize (IH _ Hc2).
+  destruct (stalled r _) as [[ls rest] n]. cbn [snd] in *.
+  rewrite N2Nat.inj_add.
+  change (N.to_nat 1) with 1%nat in *. change (N.to_nat 0) with 0%nat in *.
+  destruct (supported (snd pe) && negb (closed s));
+    [change (N.to_nat 1) with 1%nat|change (N.to_nat 0) with 0%nat]; lia.
+Qed.
+
+Lemma stalled_returns_bound sched l :
+  let s := run sched init in
+  (N.to_nat (stalled_returns l s) + length (chan s) <= N.to_nat ew_chan_cap + 1)%nat.
+Proof.
+  cbn zeta. pose proof (stalled_bound l _ (i_cap _ (inv_reach sched))) as H.
+  unfold idle1 in H. destruct (bp (run sched init)); lia.
 Qed.
 
 Lemma constants_fit_model :
